@@ -132,10 +132,10 @@ PROPERTY = {
         explanation='contracts of the four features calculators, their consistency (discrete features == sum of the mask) and the frame of register() '
                     '(one calculator must not overwrite another one\'s buffers), for concatenations of 2..3 searchable / fixed inputs, flatten with '
                     '1..3 positions and shared producers; all channel-mask values symbolic',
-        not_decided=['the forward BFS over arbitrary DAGs that attaches a calculator to each node by op class (plinio/graph/annotation.py: torch.fx pass)',
-                     'masker sharing components (build_shared_features_map), exclusion of layers by name / type', 'time-axis concat classification '
-                     '(is_features_concatenate inspects fx node arguments)'],
-        assumptions=['which calculator a layer is wired to is taken as given (hypothesis H-calc)'],
+        not_decided=['the forward BFS that attaches a calculator to each node by op class (plinio/graph/annotation.py) over ARBITRARY DAGs: it is executed from source, with the '
+                     'wiring clause as post-condition, only on the enumerated architectures of contracts/whole_pit.py (bounded in topology)',
+                     'exclusion of layers by name / type', 'squeeze / unsqueeze rules of the BFS'],
+        assumptions=['in the calculator-level harnesses which calculator a layer is wired to is taken as given (hypothesis H-calc); the whole-model harnesses discharge it for their architectures'],
     ),
 }
 
